@@ -329,3 +329,50 @@ fn c16_rpc_tcp_frame_case1() {
 fn c16_rpc_tcp_frame_case2() {
     rpc_tcp_frame(2)
 }
+
+/// benign dispatch classes of the matcher (lib/c10_z3.py): a datagram that stops one byte
+/// short of the RPC signature is handed to the RPC responder, which must stay silent
+fn rpc_short_silent(udp: bool, n: usize) {
+    let d: [u8; 44] = kani::any();
+    let ci = rpc_ci(false);
+    let masscanned = ms_plain([0, 0], MacAddr::new(0, 1, 2, 3, 4, 5));
+    let r = if udp { repl_udp(&d[..n], &masscanned, &ci, None) } else { repl_tcp(&d[..n], &masscanned, &ci, None) };
+    assert!(r.is_none(), "C10: datagram too short to hold an ONC-RPC call answered by the RPC responder");
+    kani::cover!(true, "short datagram ignored");
+}
+
+//# harness: c10_rpc_short_silent_udp23
+//# props: C10 C16@thorough
+//# tier: quick
+//# encodes: proto::rpc::repl_udp, rpc_parse
+//# bounds: 23 arbitrary bytes (the length at which the matcher dispatches RPC/UDP at end of input although the 24-byte signature is incomplete)
+//# cover: short datagram ignored
+#[kani::proof]
+#[kani::unwind(48)]
+fn c10_rpc_short_silent_udp23() {
+    rpc_short_silent(true, 23)
+}
+
+//# harness: c10_rpc_short_silent_tcp27
+//# props: C10 C16@thorough
+//# tier: quick
+//# encodes: proto::rpc::repl_tcp, rpc_parse
+//# bounds: 27 arbitrary bytes, no control block (datagram mode)
+//# cover: short datagram ignored
+#[kani::proof]
+#[kani::unwind(48)]
+fn c10_rpc_short_silent_tcp27() {
+    rpc_short_silent(false, 27)
+}
+
+//# harness: c10_rpc_short_silent_udp39
+//# props: C10 C16
+//# tier: thorough
+//# encodes: proto::rpc::repl_udp, rpc_parse
+//# bounds: 39 arbitrary bytes (one byte short of the smallest complete call)
+//# cover: short datagram ignored
+#[kani::proof]
+#[kani::unwind(48)]
+fn c10_rpc_short_silent_udp39() {
+    rpc_short_silent(true, 39)
+}
